@@ -393,3 +393,72 @@ def forwarded(chk, rule, wrapper, call, callee, same=(), mapping=None, what=None
             chk.ob(rule, "%s passes `%s`" % (label, p), t in accepted, wrapper.where(call),
                    detail="parameter `%s` of %s receives `%s`" % (p, callee.qualname, t), construct=wrapper.ident,
                    text="%s: %s receives %s" % (label, p, t))
+
+
+def batch_conservation(chk, rule, f, listname, send, itervar, iter_text, skip_ok=None):
+    """Loop-conservation rule for "collect items into a batch list, flush the list when it is full / broken, flush the
+    rest after the loop":
+      (1) every pass of the loop either puts the item into the list (append, or a fresh list holding it) or leaves by a
+          `continue` that `skip_ok(guards)` accepts;
+      (2) a list that is replaced inside the loop was sent first (or is known to be empty);
+      (3) when the loop is over a non-empty list is sent on every path;
+      (4) what is sent is the list itself.
+    `send` = name of the (awaited) call that transmits the list."""
+    cfg = f.cfg()
+    loops = [h for h in cfg.nodes if h.kind == "loop" and iter_text in src(h.ast.iter)]
+    if not loops:
+        chk.missing(rule, "%s loops over %s" % (f.qualname, iter_text), f)
+        return
+    head = loops[0]
+    it = [b for b in cfg.nodes if b.kind == "branch" and b.test == head.id and b.tag == "iter"]
+    ex = [b for b in cfg.nodes if b.kind == "branch" and b.test == head.id and b.tag == "exhausted"]
+    if not it or not ex:
+        return
+
+    def in_loop(n):
+        return n.ast is not None and any(x is n.ast for st in head.ast.body for x in ast.walk(st))
+
+    def mentions(e, name):
+        return any(isinstance(x, ast.Name) and x.id == name for x in ast.walk(e))
+    puts = [n.id for n, c in cfg.calls_named("append") if src(c.func.value) == listname and c.args and mentions(c.args[0], itervar)]
+    fresh = [n for n in cfg.nodes if n.kind == "stmt" and isinstance(n.ast, ast.Assign) and src(n.ast.targets[0]) == listname and in_loop(n)]
+    fresh_with = [n.id for n in fresh if mentions(n.ast.value, itervar)]
+    sends = [(n, c) for n, c in cfg.calls_named(send)]
+    send_ids = [n.id for n, c in sends if c.args and src(c.args[0]) == listname]
+    for n, c in sends:
+        chk.ob(rule, "%s sends the batch list itself" % f.qualname, bool(c.args) and src(c.args[0]) == listname, f.where(c),
+               construct=f.ident, text="%s(%s)" % (send, src(c.args[0]) if c.args else ""))
+    if not send_ids:
+        chk.missing(rule, "%s transmits the batch (%s(%s))" % (f.qualname, send, listname), f)
+    # (1)
+    skips = [n for n in cfg.nodes if n.kind == "stmt" and isinstance(n.ast, ast.Continue) and in_loop(n)]
+    ok_skips = []
+    for n in skips:
+        g = cfg.guards_at(n.id)
+        good = bool(skip_ok and skip_ok(g))
+        chk.ob(rule, "%s: an item is left out of the batch only for the tabled reason" % f.qualname, good, f.where(n.ast),
+               detail="guards %s" % sorted(g.items()), construct=f.ident, text="skip of an item")
+        if good:
+            ok_skips.append(n.id)
+    w = cfg.path_avoiding(it[0].id, [head.id], puts + fresh_with + ok_skips, ignore_exc=True)
+    chk.ob(rule, "%s: every item of %s ends up in a batch" % (f.qualname, iter_text), w is None and bool(puts or fresh_with), f.where(head.ast),
+           path=cfg.fmt_path(w, f.relpath) if w else None, detail="an item that is never put into the list is never transmitted",
+           construct=f.ident, text="item dropped from batch")
+    # (2)
+    for n in fresh:
+        g = cfg.guards_at(n.id)
+        known_empty = g.get("not " + listname) is True or g.get(listname) is False
+        w = None if known_empty else cfg.path_avoiding(it[0].id, [n.id], send_ids, ignore_exc=True)
+        chk.ob(rule, "%s: a batch is sent before the list is started afresh" % f.qualname, w is None, f.where(n.ast),
+               path=cfg.fmt_path(w, f.relpath) if w else None, detail="the items collected so far would be lost", construct=f.ident,
+               text="batch replaced unsent")
+    # (3)
+    empties = [b.id for b in cfg.nodes if b.kind == "branch" and src(b.ast) == listname and b.value is False] + \
+              [b.id for b in cfg.nodes if b.kind == "branch" and src(b.ast) == "not " + listname and b.value is True]
+    outer = [h.id for h in cfg.nodes if h.kind == "loop" and h.id != head.id] + [h.id for h in cfg.nodes if h.kind == "join" and isinstance(h.ast, ast.While)]
+    after_send = [i for i in send_ids if not in_loop(cfg.nodes[i])]
+    w = cfg.path_avoiding(ex[0].id, [cfg.exit.id] + [n.id for n in cfg.nodes if n.kind == "stmt" and not in_loop(n) and isinstance(n.ast, ast.Expr)
+                                                     and n.has_await() and n.id not in after_send and n.lineno > head.ast.end_lineno],
+                          after_send + empties, ignore_exc=True)
+    chk.ob(rule, "%s: what is left in the list when the loop ends is sent" % f.qualname, bool(after_send) and w is None, f.where(head.ast),
+           path=cfg.fmt_path(w, f.relpath) if w else None, construct=f.ident, text="final flush")
